@@ -182,6 +182,15 @@ class Program:
         self.by_name = {}
         for c in self.classes.values():
             self.by_name.setdefault(c.name, []).append(c)
+        # `name = OtherClass.method` in a class body binds the very same function under that name: it is a method of this class
+        for c in self.classes.values():
+            for nm, v in list(c.class_attrs.items()):
+                if isinstance(v, ast.Attribute) and isinstance(v.value, ast.Name) and len(self.by_name.get(v.value.id, [])) == 1:
+                    k = self.by_name[v.value.id][0]
+                    if v.attr in k.methods and v.attr not in k.static:
+                        c.methods[nm] = k.methods[v.attr]
+                        c.method_aliases = getattr(c, 'method_aliases', set()) | {nm}
+                        del c.class_attrs[nm]
 
     def rel(self, path):
         try:
